@@ -92,14 +92,20 @@ func zzMaterialise(id, src string) (int, bool) {
 
 // zzRun decodes doc d with (*T).Unmarshal<format>; ok=false if it panicked (reported).
 func zzRun(id string, h int, format string, d int) (r int, accepted bool, ok bool) {
-	r = zzvrt.Unmarshal(h, "T", format, d)
+	return zzRunT(id, h, "T", format, d)
+}
+
+func zzRunT(id string, h int, typ, format string, d int) (r int, accepted bool, ok bool) {
+	r = zzvrt.Unmarshal(h, typ, format, d)
 	st := zzvrt.RStatus(r)
 	if st == 2 {
 		zzvrt.Note(zzvrt.RMsg(r))
 		zzvrt.Check(id+".no-panic", false)
 		return r, false, false
 	}
-	if st != 0 {
+	if st != 0 && zzvrt.S2HasMethod(h, typ, "Unmarshal"+zzUpper(format)) {
+		// only generated methods make the all-or-nothing promise (plain encoding/json decoding
+		// of a type without a generated method fills the target as it goes)
 		zzvrt.Check(id+".receiver-unchanged-on-error", zzvrt.RUnchanged(r))
 	}
 	return r, st == 0, true
@@ -109,4 +115,11 @@ func zzRun(id string, h int, format string, d int) (r int, accepted bool, ok boo
 func zzTypeCorrectObject(d int) {
 	zzvrt.Assume(zzvrt.Not(zzvrt.DMalformed(d)))
 	zzvrt.Assume(zzvrt.DIs(d, "", zzvrt.KObject))
+}
+
+func zzUpper(format string) string {
+	if format == "yaml" {
+		return "YAML"
+	}
+	return "JSON"
 }
